@@ -7,6 +7,8 @@ VARIABLE hist
 
 Count(a) == Cardinality({j \in DOMAIN hist : hist[j].act = a})
 Refused == Cardinality({j \in DOMAIN hist : hist[j].act = "start" /\ ~hist[j].exp.ok})
+ThreadActs == {j \in DOMAIN hist : hist[j].act \in {"call", "ret", "wake", "cleanup"}}
+LastThreadAct == IF ThreadActs = {} THEN "none" ELSE hist[CHOOSE j \in ThreadActs : \A j2 \in ThreadActs : j2 <= j].act
 RefSeq == CHOOSE s \in Seqs : Len(s) = 1
 
 (* observable projection of the state after the step *)
@@ -16,7 +18,7 @@ Obs == LET st == StatusOf(pc', out', k') IN
 Rec(a, ev) == [act |-> a, ev |-> ev, exp |-> Obs,
                \* the step examines a stop that came during the wait / is the cleanup such an examination leads to
                late |-> \/ (pc = "sleep" /\ stopflag /\ More)
-                        \/ (pc = "cleanup" /\ hist # <<>> /\ hist[Len(hist)].act = "wake"),
+                        \/ (pc = "cleanup" /\ LastThreadAct = "wake"),
                fm |-> fm]
 NoEv == [ev |-> "none"]
 
